@@ -196,6 +196,8 @@ pub enum TAction {
     AnswerNow,
     /// Direct host only: poll the commands (otherwise every action is followed by a poll)
     Hold,
+    /// other cores in the process start `n` timers (ids come from one process-wide counter)
+    Elsewhere { n: u32 },
 }
 
 #[derive(Clone, Debug, Serialize, Deserialize)]
@@ -657,6 +659,9 @@ impl TimeCheck {
                 opts.extend([(5, 1), (2, 2), (6, 3), (4, 4), (1, 5), (2, 6), (3, 9)]);
             }
             opts.push((1, 7));
+            if !ns.is_empty() {
+                opts.push((1, 10));
+            }
             if host == THost::Direct {
                 opts.push((4, 8));
             }
@@ -686,6 +691,7 @@ impl TimeCheck {
                     }
                 }
                 8 => TAction::Hold,
+                10 => TAction::Elsewhere { n: *rng.pick(&[1u32, 3, 70, 150]) },
                 _ => TAction::Tick,
             };
             actions.push(a);
@@ -938,6 +944,14 @@ fn run_scn_inner(s: &TScn, cov: &mut Cov, occupancy: bool) -> Result<RunInfo, Vi
                             }
                         }
                     }
+                }
+                TAction::Elsewhere { n } => {
+                    cov.bump("action:timers_started_elsewhere");
+                    for i in 0..*n {
+                        let (_b, h) = crux_time::command::Time::<Effect, TEvent>::notify_after(Duration::from_millis(u64::from(i)));
+                        sib_ids.push(format!("{h:?}"));
+                    }
+                    continue;
                 }
                 TAction::Hold => {
                     // marker only: the action before it is not followed by a poll
